@@ -407,6 +407,40 @@ Theorem C07_transpose_underlying : forall (k : nat) (m : lmodel),
 Proof. exact transpose_underlying. Qed.
 Print Assumptions C07_transpose_underlying.
 
+(* the repaired get_matrix (fixes/C07_get_matrix_parameter_map.diff): for a MATRIX model with any well-formed vector
+   geometries (expansions, scaling included) the matrix assembled through forward has the shape of the parameter map and
+   reproduces forward; where the given matrix is returned as it is (identity geometries) it is the forward map *)
+Theorem C07_get_matrix_repaired : forall (n : nat) (A : list (list Qc)) (D R : geom),
+  wf_geom D -> wf_geom R -> vec_geom D -> vec_geom R -> wf_mat n A -> n = fun_dim D -> length A = fun_dim R ->
+  exists G, get_matrix_gen false (mat_model n A D R) = Some G /\ wf_mat (par_dim D) G /\ length G = par_dim R /\
+    (forall x, length x = par_dim D -> forward (mat_model n A D R) (V1 x) = Some (V1 (qmatvec G x))) /\
+    (forall j, (j < par_dim D)%nat ->
+       forward (mat_model n A D R) (V1 (qunit (par_dim D) j)) = Some (V1 (col (Q2Qc 0) G j))).
+Proof. exact matrix_model_get_matrix_repaired. Qed.
+Print Assumptions C07_get_matrix_repaired.
+
+Theorem C07_get_matrix_as_is : forall m : lmodel, get_matrix_gen true m = get_matrix m.
+Proof. exact get_matrix_gen_true. Qed.
+Print Assumptions C07_get_matrix_as_is.
+
+(* StepExpansion with fun2par_projection = 'max' / 'min' (GStepX): over one-node steps it is in the orthogonal class
+   (covered by C07_adjoint_orthogonal / C07_orthogonal_geometries); with a two-node step fun2par is not even additive,
+   the adjoint identity fails for both projections, and the matrix assembled by get_matrix does not reproduce forward *)
+Theorem C07_step_max_min_refuted :
+  (exists x x' a b c, forward (fun_model 2 wI2 (GId 2) (GStepX true [2%nat])) (V1 x) = Some (V1 a) /\
+                      forward (fun_model 2 wI2 (GId 2) (GStepX true [2%nat])) (V1 x') = Some (V1 b) /\
+                      forward (fun_model 2 wI2 (GId 2) (GStepX true [2%nat])) (V1 (qvadd x x')) = Some (V1 c) /\
+                      c <> qvadd a b) /\
+  (exists x y, adjoint_fails (mat_model 2 wI2 (GStepX true [2%nat]) (GId 2)) x y) /\
+  (exists x y, adjoint_fails (mat_model 2 wI2 (GStepX false [2%nat]) (GId 2)) x y) /\
+  (exists G x fx, get_matrix (fun_model 2 wI2 (GId 2) (GStepX true [2%nat])) = Some G /\
+                  forward (fun_model 2 wI2 (GId 2) (GStepX true [2%nat])) (V1 x) = Some (V1 fx) /\ qmatvec G x <> fx).
+Proof.
+  split; [exact step_max_not_additive|]. split; [do 2 eexists; exact step_max_adjoint_refuted|].
+  split; [do 2 eexists; exact step_min_adjoint_refuted | exact step_max_get_matrix_refuted].
+Qed.
+Print Assumptions C07_step_max_min_refuted.
+
 (* what the exact transpose is for EVERY PSF size (even included), periodic / zero boundary: the flipped PSF with
    the result trimmed on the OTHER side (conv1T/conv2T; equal to conv1/conv2 for odd sizes).  The repo's
    test-suite pins the untrimmed variant for size 20, so this stays a finding, not a fix. *)
